@@ -151,7 +151,8 @@ def runCase : CaseFn := fun c => Id.run do
           for pid in ["C01", "C02", "C19"] do out := out.push s!"DIFF {pid} case {c.num} line {ln}: init {txt}"
           diverged := true
     else if ws.head? == some "headersfrb" then
-      -- a reorganisation in which one RollbackLastBlock was made to fail: oracle only, the case ends here
+      -- a reorganisation in which one RollbackLastBlock was made to fail: oracle only; the code as it
+      -- is panics and the case ends here, code that survives is judged by the oracles from here on
       let p := nat! (ws.getD 1 "0")
       let ids := (bracket (ws.drop 2)).1.map nat!
       if dumpGood cfg prev then
